@@ -561,10 +561,103 @@ let run_c09 c =
      | Result.Ok _ -> obs1 "setup" "S" "ok" | r -> obs1 "setup" "S" (class_of r))
   | _ -> ()
 
+(* ---------------- C12: every serialized artefact against its schema ---------------- *)
+let bytes_of_hex (h : string) : Big_int_Z.big_int list =
+  List.init (String.length h / 2) (fun i -> Z.of_int (int_of_string ("0x" ^ String.sub h (2 * i) 2)))
+
+let schema_for scheme (name : string) (g1, g2, f) : Codec.schema option =
+  let n = nat_of_int in
+  let g1 = n g1 and g2 = n g2 and f = n f in
+  let starts p = String.length name >= String.length p && String.sub name 0 (String.length p) = p in
+  let lc bp = Some (Artefacts.batch_lc_proof f bp) in
+  match scheme with
+  | "marlin" ->
+    if name = "pp" then Some (Artefacts.kzg_universal_params g1 g2)
+    else if name = "ck" then Some (Artefacts.marlin_ck g1)
+    else if name = "vk" then Some (Artefacts.marlin_vk g1 g2)
+    else if starts "comm" then Some (Artefacts.marlin_commitment g1)
+    else if starts "state" then Some (Artefacts.marlin_randomness f)
+    else if starts "proof" then Some (Artefacts.kzg_proof g1 f)
+    else if starts "bproof" then Some (Artefacts.kzg_proof_list g1 f)
+    else if starts "lcproof" then lc (Artefacts.kzg_proof_list g1 f) else None
+  | "sonic" ->
+    if name = "pp" then Some (Artefacts.kzg_universal_params g1 g2)
+    else if name = "ck" then Some (Artefacts.sonic_ck g1)
+    else if name = "vk" then Some (Artefacts.sonic_vk g1 g2)
+    else if starts "comm" then Some (Artefacts.kzg_commitment g1)
+    else if starts "state" then Some (Artefacts.kzg_randomness f)
+    else if starts "proof" then Some (Artefacts.kzg_proof g1 f)
+    else if starts "bproof" then Some (Artefacts.kzg_proof_list g1 f)
+    else if starts "lcproof" then lc (Artefacts.kzg_proof_list g1 f) else None
+  | "ipa" ->
+    if name = "pp" then Some (Artefacts.ipa_params g1)
+    else if name = "ck" || name = "vk" then Some (Artefacts.ipa_key g1)
+    else if starts "comm" then Some (Artefacts.ipa_commitment g1)
+    else if starts "state" then Some (Artefacts.ipa_randomness f)
+    else if starts "proof" then Some (Artefacts.ipa_proof g1 f)
+    else if starts "bproof" then Some (Artefacts.ipa_proof_list g1 f)
+    else if starts "lcproof" then lc (Artefacts.ipa_proof_list g1 f) else None
+  | "pst13" ->
+    if name = "pp" then Some (Artefacts.pst13_params g1 g2)
+    else if name = "ck" then Some (Artefacts.pst13_ck g1)
+    else if name = "vk" then Some (Artefacts.pst13_vk g1 g2)
+    else if starts "comm" then Some (Artefacts.marlin_commitment g1)
+    else if starts "state" then Some (Artefacts.pst13_randomness f)
+    else if starts "proof" then Some (Artefacts.pst13_proof g1 f)
+    else if starts "bproof" then Some (Artefacts.pst13_proof_list g1 f)
+    else if starts "lcproof" then lc (Artefacts.pst13_proof_list g1 f) else None
+  | "hyrax" ->
+    if name = "pp" || name = "ck" || name = "vk" then Some (Artefacts.hyrax_params g1)
+    else if starts "comm" then Some (Artefacts.hyrax_commitment g1)
+    else if starts "state" then Some (Artefacts.hyrax_state f)
+    else if starts "proof" then Some (Artefacts.hyrax_proof_list g1 f)
+    else if starts "bproof" then Some (Artefacts.hyrax_batch_proof g1 f)
+    else if starts "lcproof" then lc (Artefacts.hyrax_batch_proof g1 f) else None
+  | "ligero_uni" | "ligero_ml" | "brakedown_ml" ->
+    if name = "pp" || name = "ck" || name = "vk" then
+      Some (if scheme = "brakedown_ml" then Artefacts.brakedown_params f else Artefacts.ligero_params)
+    else if starts "comm" then Some Artefacts.lincode_commitment
+    else if starts "state" then Some (Artefacts.lincode_state f)
+    else if starts "proof" then Some (Artefacts.lincode_proof_list f)
+    else if starts "bproof" then Some (Artefacts.lincode_batch_proof f)
+    else if starts "lcproof" then lc (Artefacts.lincode_batch_proof f) else None
+  | _ -> None
+
+let run_c12 c =
+  let scheme = str1 c "scheme" in
+  let pairing = List.mem scheme [ "marlin"; "sonic"; "pst13"; "ligero_uni"; "ligero_ml"; "brakedown_ml" ] in
+  Hashtbl.iter (fun key v ->
+      (* key = ser.<name>.<c|u> *)
+      match String.split_on_char '.' key with
+      | [ "ser"; name; mode ] ->
+        let sizes = if pairing then (if mode = "c" then (48, 96, 32) else (96, 192, 32))
+          else (if mode = "c" then (32, 32, 32) else (64, 64, 32)) in
+        (match schema_for scheme name sizes with
+         | None -> ()
+         | Some sch ->
+           let bytes = bytes_of_hex (List.hd v) in
+           let tag = name ^ "." ^ mode in
+           (match Codec.dec_all_fast sch bytes with
+            | Some value ->
+              (match Codec.enc sch value with
+               | Some b2 when List.length b2 = List.length bytes && List.for_all2 Z.equal b2 bytes ->
+                 obs1 ("rt." ^ tag) "S" "ok";
+                 obs1 ("sz." ^ tag) "N" (string_of_int (List.length b2));
+                 obs1 ("len." ^ tag) "N" (string_of_int (List.length b2))
+               | _ -> obs1 ("rt." ^ tag) "S" "model-reencoding-differs")
+            | None -> obs1 ("rt." ^ tag) "S" "model-cannot-parse");
+           if has c ("cuts." ^ tag) then begin
+             let cuts = List.map int_of_string (get c ("cuts." ^ tag)) in
+             let rec takeb n l = if n <= 0 then [] else match l with [] -> [] | x :: t -> x :: takeb (n - 1) t in
+             obs ("tr." ^ tag) "S" (dash (List.map (fun k -> match Codec.dec_all_fast sch (takeb k bytes) with Some _ -> "ok" | None -> "err") cuts))
+           end)
+      | _ -> ()) c.fields
+
 let run_pc c =
-  match str1 c "scheme" with
-  | "marlin" when has c "beta" -> run_pc_marlin c
-  | _ -> ()
+  (match str1 c "scheme" with
+   | "marlin" when has c "beta" -> run_pc_marlin c
+   | _ -> ());
+  if has c "c12" then run_c12 c
 
 (* ---------------- C13: calculate_t, indices, Reed-Solomon ---------------- *)
 let field_of = function
